@@ -41,12 +41,13 @@ def digest(dump: Any) -> str:
 
 
 class StageFailure(Exception):
-    """ an exception of the code under test, with the dumps completed before it """
-    def __init__(self, stages: dict, stage: str, error: BaseException) -> None:
+    """ an exception of the code under test, with the dumps and class labels completed before it """
+    def __init__(self, stages: dict, stage: str, error: BaseException, classes: list) -> None:
         super().__init__(str(error))
         self.stages = stages
         self.stage = stage
         self.error = error
+        self.classes = classes
 
 
 def describe_exception(err: BaseException) -> dict:
@@ -64,6 +65,7 @@ class _Stages:
     """ collects the dumps of one case in order; `guard` marks the code under test """
     def __init__(self) -> None:
         self.dumps: dict = {}
+        self.classes: list = []      # labels measured on the results so far (kept when a later stage raises)
 
     def add(self, name: str, dump: Any) -> None:
         self.dumps[name] = dump
@@ -72,7 +74,7 @@ class _Stages:
         try:
             return func(*args, **kwargs)
         except Exception as err:  # pylint: disable=broad-except
-            raise StageFailure(self.dumps, stage, err) from err
+            raise StageFailure(self.dumps, stage, err, self.classes) from err
 
 
 # --------------------------------------------------------------------------- small shared helpers
@@ -121,7 +123,8 @@ def stage_refine(spec: dict) -> tuple:
             cds: [[hit.hit_id, hit.query_start, hit.query_end, hit.evalue, hit.bitscore] for hit in hits]
             for cds, hits in refined.items()})
     kept = sum(len(hits) for hits in stages.dumps["refine_list"].values())
-    return stages.dumps, {"classes": [f"kept_list_{min(kept, 4)}"]}
+    stages.classes.append(f"kept_list_{min(kept, 4)}")
+    return stages.dumps, {"classes": stages.classes}
 
 
 # =========================================================================== hits: hmmer.remove_overlapping
@@ -145,7 +148,8 @@ def stage_hmmer(spec: dict) -> tuple:
     kept = stages.guard("hmmer_kept", remove_overlapping, hits, cutoffs, overlap_limit=int(spec["limit"]))
     stages.add("hmmer_kept", [[hit.identifier, hit.protein_start, hit.protein_end, hit.score, hit.evalue]
                               for hit in kept])
-    return stages.dumps, {"classes": ["some_dropped" if len(kept) < len(hits) else "all_kept"]}
+    stages.classes.append("some_dropped" if len(kept) < len(hits) else "all_kept")
+    return stages.dumps, {"classes": stages.classes}
 
 
 # =========================================================================== hits: filter_results / filter_result_multiple
@@ -183,12 +187,11 @@ def stage_filter(spec: dict) -> tuple:
     stages.add("filter_results", dump(first, first_by_id))
     second, second_by_id = stages.guard("filter_multiple", filter_result_multiple, first, first_by_id)
     stages.add("filter_multiple", dump(second, second_by_id))
-    classes = []
     if len(stages.dumps["filter_results"]["results"]) < len(hsps):
-        classes.append("stage1_dropped")
+        stages.classes.append("stage1_dropped")
     if len(stages.dumps["filter_multiple"]["results"]) < len(stages.dumps["filter_results"]["results"]):
-        classes.append("stage2_dropped")
-    return stages.dumps, {"classes": classes}
+        stages.classes.append("stage2_dropped")
+    return stages.dumps, {"classes": stages.classes}
 
 
 # =========================================================================== records: detection, areas, outputs
@@ -279,6 +282,44 @@ def _genbank_text(record: Any) -> str:
     return handle.getvalue()
 
 
+_SCRATCH: list = []
+
+
+def _scratch_dir() -> str:
+    """ one scratch directory per process for the per-region GenBank files; below the pool's scratch directory
+        (removed by the parent) when there is one, else a directory of its own removed at exit """
+    if not _SCRATCH:
+        import tempfile
+        base = os.environ.get("VERIF_C17_SCRATCH")
+        if base and os.path.isdir(base):
+            path = tempfile.mkdtemp(prefix="child_", dir=base)
+        else:
+            import atexit
+            import shutil
+            path = tempfile.mkdtemp(prefix="verif_c17_")
+            atexit.register(shutil.rmtree, path, ignore_errors=True)
+        _SCRATCH.append(path)
+    return _SCRATCH[0]
+
+
+def _region_genbank_texts(record: Any) -> dict:
+    """ the per-region GenBank files as Region.write_to_genbank writes them: {file name: text} """
+    out = {}
+    directory = _scratch_dir()
+    bio_record = record.to_biopython()
+    for region in record.get_regions():
+        name = f"{record.id}.region{region.get_region_number():03d}.gbk"
+        path = os.path.join(directory, name)
+        try:
+            region.write_to_genbank(directory=directory, record=bio_record)
+            with open(path, encoding="utf-8") as handle:
+                out[name] = handle.read()
+        finally:
+            if os.path.exists(path):
+                os.unlink(path)
+    return out
+
+
 def _results_json_text(record: Any, module_results: dict) -> str:
     from antismash.common import json as as_json
     from antismash.common import serialiser
@@ -294,7 +335,9 @@ def _form_areas_and_outputs(stages: _Stages, record: Any, module_results: dict) 
     sets, exact = stages.guard("areas", _area_dumps, record)
     stages.add("areas_sets", sets)
     stages.add("areas", exact)
+    stages.classes.extend(stages.guard("areas", _area_classes, record))
     stages.add("genbank", stages.guard("genbank", _genbank_text, record))
+    stages.add("region_genbank", stages.guard("region_genbank", _region_genbank_texts, record))
     stages.add("results_json", stages.guard("results_json", _results_json_text, record, module_results))
 
 
@@ -407,18 +450,17 @@ def stage_detect(spec: dict) -> tuple:
                             for res in cds_results]})
     stages.add("protoclusters", {"protoclusters": dump,
                                  "outside": [res.cds.get_name() for res in rule_results.cdses_outside_clusters]})
+    if any(len(names) > 1 for item in dump for res in item["cds_results"] for _, names in res["definition_domains"]):
+        stages.classes.append("cds_with_several_definition_domains")
+    if rule_results.cdses_outside_clusters:
+        stages.classes.append("cds_results_outside")
     stages.add("cds_annotations", _cds_annotation_dump(record))
     for protocluster in results.get_predicted_protoclusters():
         stages.guard("areas", record.add_protocluster, protocluster)
     for subregion in results.get_predicted_subregions():
         stages.guard("areas", record.add_subregion, subregion)
     _form_areas_and_outputs(stages, record, {"antismash.detection.hmm_detection": results})
-    classes = _area_classes(record)
-    if any(len(names) > 1 for item in dump for res in item["cds_results"] for _, names in res["definition_domains"]):
-        classes.append("cds_with_several_definition_domains")
-    if rule_results.cdses_outside_clusters:
-        classes.append("cds_results_outside")
-    return stages.dumps, {"classes": classes}
+    return stages.dumps, {"classes": stages.classes}
 
 
 def stage_areas(spec: dict) -> tuple:
@@ -444,7 +486,7 @@ def stage_areas(spec: dict) -> tuple:
     for sub in spec.get("subregions") or []:
         stages.guard("areas", _add_subregions, record, {"subregions": [sub]})
     _form_areas_and_outputs(stages, record, {})
-    return stages.dumps, {"classes": _area_classes(record)}
+    return stages.dumps, {"classes": stages.classes}
 
 
 STAGES = {
@@ -485,7 +527,7 @@ def run_once(sub: str, spec: dict) -> tuple:
         error["stage"] = failure.stage
         if not error["in_antismash"]:
             error["traceback"] = "".join(traceback.format_exception(failure.error))[-1500:]
-        return failure.stages, error, {"classes": ["raised"]}
+        return failure.stages, error, {"classes": list(failure.classes) + ["raised"]}
 
 
 def _bootstrap() -> None:
